@@ -259,10 +259,10 @@ pub fn run(ctx: &Ctx) -> Report {
     let mut rep = Report::new(ID, "exploration", ctx);
     rep.rule = "Generated: pairs (A,B) of token soups over the grammar's delimiters (4 spaces, ':', ' -> ', parentheses, '#', LF, CR, CRLF, the sourceFile JSON prefix/suffix, quotes, 0xff, 0xb2, huge digit runs, whole valid lines) joined by LF, CR and CRLF; random byte strings and delimiter-byte strings split at every line break; hostile token mutants of generated mappings (numbers around 2^32/2^64, invalid UTF-8, unterminated sourceFile headers); corpus files cut at sampled line boundaries; bounded-exhaustive: all strings of <=6 (quick) / <=7 (thorough) symbols over a 9-symbol alphabet, split at every LF/CR symbol. Oracle: iteration terminates with items <= input bytes, no yielded component contains CR/LF, and records(A ++ t ++ B) == records(A) ++ records(B) after norm (error items compared by their line without terminators; error items with an empty line dropped). evaluations = inputs iterated + split relations checked. Non-trivial = distinct (input, split) whose records contain both an Ok and an Err item, or whose A ends in an error line.".into();
     rep.assumptions = vec!["phantom error items for blank trailing input are ignored (norm)".into()];
-    rep.run_stage("pairs", pair_case, ctx.cases(150_000, 4_000_000), check_pair);
-    rep.run_stage("bytes", bytes_case, ctx.cases(20_000, 500_000), |c: &BytesCase, st: &mut Stats| check_bytes(&unhex(&c.hex), 32, st));
+    rep.run_stage("pairs", pair_case, ctx.cases(150_000, 12_000_000), check_pair);
+    rep.run_stage("bytes", bytes_case, ctx.cases(20_000, 1_500_000), |c: &BytesCase, st: &mut Stats| check_bytes(&unhex(&c.hex), 32, st));
     let cfg = GenCfg { plain_sourcefile_headers: true, ..GenCfg::default() };
-    rep.run_stage("mutants", move || mutate::hostile_case(&cfg), ctx.cases(10_000, 300_000), check_mutant);
+    rep.run_stage("mutants", move || mutate::hostile_case(&cfg), ctx.cases(10_000, 900_000), check_mutant);
     let max_len = ctx.tier.pick(6, 7);
     let mut chunks = Vec::new();
     for len in 1..=max_len {
